@@ -383,6 +383,14 @@ class _Inliner:
                     f.value = self._expr(f.value, cls, selfname, owner, pre)
                 return e
         if isinstance(e, ast.Call):
+            # a generator expression consumed whole by join / list / tuple / sum is a list comprehension
+            if (len(e.args) == 1 and not e.keywords and isinstance(e.args[0], ast.GeneratorExp)
+                    and ((isinstance(e.func, ast.Attribute) and e.func.attr == "join")
+                         or (isinstance(e.func, ast.Name) and e.func.id in ("list", "tuple", "sum", "sorted", "bytes", "bytearray")))):
+                g = e.args[0]
+                self._unstar(g, cls, selfname)
+                if len(g.generators) == 1 and not g.generators[0].is_async and self._has_target(g.elt, cls, selfname, owner):
+                    e.args[0] = ast.copy_location(ast.ListComp(elt=g.elt, generators=g.generators), g)
             # arguments first (left to right)
             if isinstance(e.func, ast.Attribute):
                 e.func.value = self._expr(e.func.value, cls, selfname, owner, pre)
@@ -395,6 +403,8 @@ class _Inliner:
                 if rep is not None:
                     return rep
             return e
+        if isinstance(e, ast.ListComp):
+            self._unstar(e, cls, selfname)
         if (isinstance(e, ast.ListComp) and len(e.generators) == 1 and not e.generators[0].is_async and not e.generators[0].ifs
                 and isinstance(e.generators[0].iter, (ast.Tuple, ast.List)) and 0 < len(e.generators[0].iter.elts) <= 8
                 and isinstance(e.generators[0].target, ast.Name) and self._has_target(e.elt, cls, selfname, owner)):
@@ -429,6 +439,34 @@ class _Inliner:
                 body = [ast.If(test=c, body=body, orelse=[])]
             loop = ast.For(target=target, iter=it, body=body, orelse=[])
             init = _assign(acc, ast.List(elts=[], ctx=ast.Load()), e)
+            for s_ in (init, loop):
+                ast.copy_location(s_, e)
+                ast.fix_missing_locations(s_)
+            loop.body = self._block(loop.body, cls, selfname, owner)
+            pre.extend([init, loop])
+            return ast.copy_location(ast.Name(id=acc, ctx=ast.Load()), e)
+        if (isinstance(e, ast.DictComp) and len(e.generators) == 1 and not e.generators[0].is_async
+                and (self._has_target(e.key, cls, selfname, owner) or self._has_target(e.value, cls, selfname, owner))):
+            # {K(helper(..)): V(helper(..)) for v in IT if c}  ->  acc = {}; for v in IT: if c: acc[K] = V
+            gen = e.generators[0]
+            self.counter += 1
+            tag = f"{_PREFIX}{self.counter}_"
+            acc = tag + "acc"
+            names = {x.id for x in ast.walk(gen.target) if isinstance(x, ast.Name)}
+            rn = _Rename({n: tag + n for n in names})
+            target = rn.visit(copy.deepcopy(gen.target))
+            key = rn.visit(copy.deepcopy(e.key))
+            value = rn.visit(copy.deepcopy(e.value))
+            ifs = [rn.visit(copy.deepcopy(c)) for c in gen.ifs]
+            it = self._expr(gen.iter, cls, selfname, owner, pre)
+            # Python evaluates the key before the value
+            ktmp = tag + "key"
+            body = [_assign(ktmp, key, e),
+                    ast.Assign(targets=[ast.Subscript(value=ast.Name(id=acc, ctx=ast.Load()), slice=ast.Name(id=ktmp, ctx=ast.Load()), ctx=ast.Store())], value=value)]
+            for c in reversed(ifs):
+                body = [ast.If(test=c, body=body, orelse=[])]
+            loop = ast.For(target=target, iter=it, body=body, orelse=[])
+            init = _assign(acc, ast.Dict(keys=[], values=[]), e)
             for s_ in (init, loop):
                 ast.copy_location(s_, e)
                 ast.fix_missing_locations(s_)
@@ -563,6 +601,36 @@ class _Inliner:
         elif isinstance(f, ast.Attribute) and isinstance(f.value, ast.Name) and selfname is not None and f.value.id == selfname and cls is not None:
             fn = self._lookup_method(cls, f.attr)
         return fn is not None and fn is not owner and _eligible_generator(fn, self.anchored, local=local) is not None
+
+    def _unstar(self, comp, cls, selfname):
+        """[f(*row) for row in IT]  ->  [f(a, b, c) for (a, b, c) in IT]  when f is a helper with exactly that many positional
+        parameters and `row` is used nowhere else (then the call can be inlined like any other)."""
+        if len(comp.generators) != 1 or not isinstance(comp.generators[0].target, ast.Name):
+            return
+        gen = comp.generators[0]
+        v = gen.target.id
+        uses = [x for part in [comp.elt] + list(gen.ifs) for x in ast.walk(part) if isinstance(x, ast.Name) and x.id == v]
+        calls = [x for x in ast.walk(comp.elt) if isinstance(x, ast.Call) and len(x.args) == 1 and isinstance(x.args[0], ast.Starred)
+                 and isinstance(x.args[0].value, ast.Name) and x.args[0].value.id == v and not x.keywords]
+        if len(uses) != 1 or len(calls) != 1:
+            return
+        call = calls[0]
+        probe = ast.Call(func=call.func, args=[], keywords=[])
+        t = self._target(probe, cls, selfname)
+        if t is None:
+            return
+        fn, receiver = t
+        a = fn.args
+        if a.vararg or a.kwarg or a.kwonlyargs or a.defaults:
+            return
+        n = len(a.posonlyargs + a.args) - (1 if receiver is not None else 0)
+        if not 1 <= n <= 8:
+            return
+        self.counter += 1
+        names = [f"{_PREFIX}{self.counter}_{v}{i}" for i in range(n)]
+        gen.target = ast.copy_location(ast.Tuple(elts=[ast.Name(id=x, ctx=ast.Store()) for x in names], ctx=ast.Store()), gen.target)
+        call.args = [ast.copy_location(ast.Name(id=x, ctx=ast.Load()), call) for x in names]
+        ast.fix_missing_locations(gen.target)
 
     def _has_target(self, e, cls, selfname, owner) -> bool:
         for x in _walk_own(e):
@@ -769,12 +837,42 @@ class _TableSearch(ast.NodeTransformer):
             if isinstance(n, ast.Name) and isinstance(n.ctx, ast.Store):
                 counts[n.id] = counts.get(n.id, 0) + 1
         self.tables = {k: v for k, v in self.tables.items() if counts.get(k, 0) == 1}
+        self.local_tables = {}
+
+    def visit_FunctionDef(self, node: ast.FunctionDef):
+        # a local literal table: one plain assignment of a tuple / list of constants in this function, never touched otherwise
+        saved = self.local_tables
+        self.local_tables = dict(saved)
+        stores, cands = {}, {}
+        for x in _walk_own_deep(node):
+            if isinstance(x, ast.Name) and isinstance(x.ctx, (ast.Store, ast.Del)):
+                stores[x.id] = stores.get(x.id, 0) + 1
+        for a in node.args.posonlyargs + node.args.args + node.args.kwonlyargs:
+            stores[a.arg] = stores.get(a.arg, 0) + 1
+        for st in node.body:
+            if (isinstance(st, ast.Assign) and len(st.targets) == 1 and isinstance(st.targets[0], ast.Name) and isinstance(st.value, (ast.Tuple, ast.List))
+                    and all(isinstance(e, ast.Constant) or (isinstance(e, (ast.Tuple, ast.List)) and all(isinstance(y, ast.Constant) for y in e.elts))
+                            for e in st.value.elts)):
+                cands[st.targets[0].id] = st.value
+        for k, v in cands.items():
+            uses = [x for x in _walk_own_deep(node) if isinstance(x, ast.Name) and x.id == k and isinstance(x.ctx, ast.Load)]
+            only_iterated = True
+            for x in _walk_own_deep(node):
+                if isinstance(x, ast.Attribute) and isinstance(x.value, ast.Name) and x.value.id == k:
+                    only_iterated = False  # a method call could mutate it
+            if stores.get(k, 0) == 1 and only_iterated and isinstance(v, ast.Tuple):
+                self.local_tables[k] = v
+        self.generic_visit(node)
+        self.local_tables = saved
+        return node
 
     def visit_For(self, node: ast.For):
         self.generic_visit(node)
         it = node.iter
         rows = None
-        if isinstance(it, ast.Name) and it.id in self.tables:
+        if isinstance(it, ast.Name) and it.id in self.local_tables:
+            rows = self.local_tables[it.id].elts
+        elif isinstance(it, ast.Name) and it.id in self.tables:
             rows = self.tables[it.id].elts
         elif isinstance(it, (ast.Tuple, ast.List)):
             rows = it.elts
@@ -783,8 +881,9 @@ class _TableSearch(ast.NodeTransformer):
         if len(node.body) != 1 or not isinstance(node.body[0], ast.If) or node.body[0].orelse:
             return node
         inner = node.body[0]
-        if not inner.body or not isinstance(inner.body[-1], ast.Break):
+        if not inner.body or not isinstance(inner.body[-1], (ast.Break, ast.Return)):
             return node
+        leaves_by_return = isinstance(inner.body[-1], ast.Return)
         for st in inner.body[:-1]:
             for x in _walk_loop_own(st):
                 if isinstance(x, (ast.Break, ast.Continue)):
@@ -815,7 +914,8 @@ class _TableSearch(ast.NodeTransformer):
                     return n
 
             test = Sub().visit(copy.deepcopy(inner.test))
-            body = [Sub().visit(copy.deepcopy(s)) for s in inner.body[:-1]] or [ast.copy_location(ast.Pass(), inner)]
+            keep = inner.body if leaves_by_return else inner.body[:-1]
+            body = [Sub().visit(copy.deepcopy(s)) for s in keep] or [ast.copy_location(ast.Pass(), inner)]
             orelse = [chain] if chain is not None else copy.deepcopy(node.orelse)
             chain = ast.copy_location(ast.If(test=test, body=body, orelse=orelse), inner)
         self.n += 1
@@ -850,6 +950,259 @@ def _is_log_stmt(st) -> bool:
             if isinstance(x, (ast.Call, ast.NamedExpr, ast.Await, ast.Yield, ast.YieldFrom, ast.Lambda, ast.ListComp, ast.GeneratorExp, ast.DictComp, ast.SetComp)):
                 return False
     return True
+
+
+def _independent_parallel(targets, values) -> bool:
+    """t1, t2 = e1, e2 assigns like t1 = e1; t2 = e2 when no later value reads what an earlier target stores."""
+    for i, t in enumerate(targets):
+        if isinstance(t, ast.Starred) or isinstance(t, (ast.Tuple, ast.List)):
+            return False
+        for e in values[i + 1:]:
+            for x in ast.walk(e):
+                if isinstance(t, ast.Name):
+                    if isinstance(x, ast.Name) and x.id == t.id:
+                        return False
+                elif isinstance(t, ast.Attribute):
+                    if isinstance(x, (ast.Call, ast.Await)) or (isinstance(x, ast.Attribute) and x.attr == t.attr):
+                        return False
+                else:
+                    if isinstance(x, (ast.Call, ast.Await, ast.Subscript)):
+                        return False
+        # evaluating a later target must not depend on an earlier store either
+        for t2 in targets[i + 1:]:
+            for x in ast.walk(t2):
+                if isinstance(t, ast.Name) and isinstance(x, ast.Name) and x.id == t.id and isinstance(x.ctx, ast.Load):
+                    return False
+    return True
+
+
+def _pure_row(e) -> bool:
+    return all(isinstance(x, (ast.Constant, ast.Name, ast.BinOp, ast.UnaryOp, ast.Tuple, ast.Attribute, ast.operator, ast.unaryop, ast.expr_context))
+               for x in ast.walk(e))
+
+
+class _ConstLoops(ast.NodeTransformer):
+    """`for x in (A, B): BODY` over a short constant sequence (written in place or a module-level tuple bound once) whose body
+    neither breaks nor continues is `BODY[x:=A]; BODY[x:=B]`; `[E(x) for x in (A, B)]` is `[E(A), E(B)]`.  Reading "both copies"
+    in a loop and reading them one after the other become one shape."""
+
+    MAX_ROWS = 4
+
+    def __init__(self, tree):
+        self.n = 0
+        counts = {}
+        for x in ast.walk(tree):
+            if isinstance(x, ast.Name) and isinstance(x.ctx, ast.Store):
+                counts[x.id] = counts.get(x.id, 0) + 1
+        self.seqs = {}
+        for st in tree.body:
+            if isinstance(st, ast.Assign) and len(st.targets) == 1 and isinstance(st.targets[0], ast.Name) and isinstance(st.value, ast.Tuple) \
+                    and counts.get(st.targets[0].id) == 1 and all(_pure_row(e) for e in st.value.elts):
+                self.seqs[st.targets[0].id] = st.value
+        self.fn = None
+
+    def _rows(self, it):
+        if isinstance(it, ast.Name) and it.id in self.seqs:
+            it = self.seqs[it.id]
+        if isinstance(it, (ast.Tuple, ast.List)) and 0 < len(it.elts) <= self.MAX_ROWS and all(_pure_row(e) and not isinstance(e, ast.Starred) for e in it.elts):
+            return it.elts
+        return None
+
+    def visit_FunctionDef(self, node):
+        saved = self.fn
+        self.fn = node
+        self.generic_visit(node)
+        self.fn = saved
+        return node
+
+    @staticmethod
+    def _subst(node, mp):
+        class Sub(ast.NodeTransformer):
+            def visit_Name(self_, n):
+                if isinstance(n.ctx, ast.Load) and n.id in mp:
+                    return ast.copy_location(copy.deepcopy(mp[n.id]), n)
+                return n
+        return Sub().visit(copy.deepcopy(node))
+
+    def _bind(self, tgt, row):
+        if isinstance(tgt, ast.Name):
+            return {tgt.id: row}
+        if isinstance(tgt, (ast.Tuple, ast.List)) and all(isinstance(e, ast.Name) for e in tgt.elts) and isinstance(row, (ast.Tuple, ast.List)) \
+                and len(row.elts) == len(tgt.elts):
+            return {e.id: v for e, v in zip(tgt.elts, row.elts)}
+        return None
+
+    def visit_For(self, node: ast.For):
+        self.generic_visit(node)
+        rows = self._rows(node.iter)
+        if rows is None or node.orelse or self.fn is None:
+            return node
+        if len(node.body) > 8:
+            return node
+        for st in node.body:
+            for x in _walk_loop_own(st):
+                if isinstance(x, (ast.Break, ast.Continue)):
+                    return node
+            for x in ast.walk(st):
+                if isinstance(x, (ast.For, ast.While, ast.FunctionDef, ast.Lambda, ast.Yield, ast.YieldFrom)):
+                    return node
+        binds = [self._bind(node.target, r) for r in rows]
+        if any(b is None for b in binds):
+            return node
+        names = set(binds[0])
+        for st in node.body:
+            for x in ast.walk(st):
+                if isinstance(x, ast.Name) and x.id in names and isinstance(x.ctx, (ast.Store, ast.Del)):
+                    return node
+        # the loop variable must not be read outside the loop
+        inside = {id(x) for x in ast.walk(node)}
+        for x in ast.walk(self.fn):
+            if isinstance(x, ast.Name) and x.id in names and id(x) not in inside:
+                return node
+        out = []
+        for mp in binds:
+            for st in node.body:
+                out.append(self._subst(st, mp))
+        self.n += 1
+        return out
+
+    def visit_ListComp(self, node: ast.ListComp):
+        self.generic_visit(node)
+        if len(node.generators) != 1 or node.generators[0].is_async or node.generators[0].ifs:
+            return node
+        gen = node.generators[0]
+        rows = self._rows(gen.iter)
+        if rows is None:
+            return node
+        binds = [self._bind(gen.target, r) for r in rows]
+        if any(b is None for b in binds):
+            return node
+        if any(isinstance(x, (ast.Lambda, ast.ListComp, ast.GeneratorExp, ast.NamedExpr)) for x in ast.walk(node.elt)):
+            return node
+        self.n += 1
+        return ast.copy_location(ast.List(elts=[self._subst(node.elt, mp) for mp in binds], ctx=ast.Load()), node)
+
+
+def unroll_constant_loops(tree: ast.Module) -> int:
+    t = _ConstLoops(tree)
+    t.visit(tree)
+    if t.n:
+        ast.fix_missing_locations(tree)
+    return t.n
+
+
+def fold_list_building(tree: ast.Module) -> int:
+    """`X = []` followed, in the same block, by `X.append(a)` ... `X.append(b)` with nothing else touching X in between is
+    `t1 = a` ... `t2 = b; X = [t1, t2]` (every value is still computed where it was; the list exists from the last append on)."""
+    n = 0
+    counter = [0]
+    for node in ast.walk(tree):
+        for fld in ("body", "orelse", "finalbody"):
+            blk = getattr(node, fld, None)
+            if not (isinstance(blk, list) and blk and isinstance(blk[0], ast.stmt)):
+                continue
+            i = 0
+            while i < len(blk):
+                st = blk[i]
+                if (isinstance(st, (ast.Assign, ast.AnnAssign)) and (len(st.targets) == 1 if isinstance(st, ast.Assign) else st.value is not None)
+                        and isinstance(st.value, ast.List) and not st.value.elts):
+                    tgt = st.targets[0] if isinstance(st, ast.Assign) else st.target
+                    if isinstance(tgt, (ast.Name, ast.Attribute)) and not any(isinstance(x, ast.Call) for x in ast.walk(tgt)):
+                        key = ast.unparse(tgt)
+                        apps = []
+                        j = i + 1
+                        while j < len(blk):
+                            s2 = blk[j]
+                            txt_hit = any((isinstance(x, (ast.Name, ast.Attribute)) and ast.unparse(x) == key) for x in ast.walk(s2))
+                            is_app = (isinstance(s2, ast.Expr) and isinstance(s2.value, ast.Call) and isinstance(s2.value.func, ast.Attribute)
+                                      and s2.value.func.attr == "append" and ast.unparse(s2.value.func.value) == key and len(s2.value.args) == 1
+                                      and not s2.value.keywords
+                                      and not any((isinstance(x, (ast.Name, ast.Attribute)) and ast.unparse(x) == key) for x in ast.walk(s2.value.args[0])))
+                            if is_app:
+                                apps.append(j)
+                            elif txt_hit:
+                                break
+                            elif isinstance(s2, (ast.For, ast.While, ast.If, ast.Try, ast.With, ast.Return, ast.Raise, ast.FunctionDef)):
+                                break
+                            elif isinstance(tgt, ast.Attribute) and any(isinstance(x, ast.Call) and any(isinstance(y, ast.Name) and y.id == _root_name(tgt)
+                                                                                                           for a in list(x.args) + [x.func] for y in ast.walk(a))
+                                                                          for x in ast.walk(s2)):
+                                break  # a call that gets hold of the owner object could look at the half-built list
+                            j += 1
+                        if len(apps) >= 2 and len(apps) <= 6:
+                            counter[0] += 1
+                            names = []
+                            for k, idx in enumerate(apps):
+                                nm = f"{_PREFIX}L{counter[0]}_{k}"
+                                names.append(nm)
+                                blk[idx] = _assign(nm, blk[idx].value.args[0], blk[idx])
+                            lst = ast.List(elts=[ast.Name(id=x, ctx=ast.Load()) for x in names], ctx=ast.Load())
+                            new = ast.copy_location(ast.Assign(targets=[copy.deepcopy(tgt)], value=lst), blk[apps[-1]])
+                            blk.insert(apps[-1] + 1, new)
+                            del blk[i]
+                            n += 1
+                            continue
+                i += 1
+    if n:
+        ast.fix_missing_locations(tree)
+    return n
+
+
+def _root_name(e):
+    while isinstance(e, ast.Attribute):
+        e = e.value
+    return e.id if isinstance(e, ast.Name) else None
+
+
+def final_loop_returns(tree: ast.Module) -> int:
+    """A bare `return` directly inside the loop that ends a function body (no `else`, not inside a nested loop) leaves the loop
+    and then the function with None: it is a `break`.  (Makes procedures that stop early inlinable.)"""
+    n = 0
+    for fn in ast.walk(tree):
+        if not isinstance(fn, (ast.FunctionDef, ast.AsyncFunctionDef)) or not fn.body:
+            continue
+        last = fn.body[-1]
+        if not isinstance(last, (ast.While, ast.For)) or last.orelse:
+            continue
+
+        def rewrite(block):
+            nonlocal n
+            for i, st in enumerate(block):
+                if isinstance(st, ast.Return) and (st.value is None or (isinstance(st.value, ast.Constant) and st.value.value is None)):
+                    block[i] = ast.copy_location(ast.Break(), st)
+                    n += 1
+                elif isinstance(st, ast.If):
+                    rewrite(st.body)
+                    rewrite(st.orelse)
+                elif isinstance(st, ast.With):
+                    rewrite(st.body)
+        rewrite(last.body)
+    return n
+
+
+def split_parallel_assignments(tree: ast.Module) -> int:
+    """`a, b = x, y` (same number of plain targets and values, no value reading an earlier target) is `a = x; b = y`."""
+    n = 0
+    for node in ast.walk(tree):
+        for fld in ("body", "orelse", "finalbody"):
+            blk = getattr(node, fld, None)
+            if not (isinstance(blk, list) and blk and isinstance(blk[0], ast.stmt)):
+                continue
+            out = []
+            for st in blk:
+                if (isinstance(st, ast.Assign) and len(st.targets) == 1 and isinstance(st.targets[0], (ast.Tuple, ast.List))
+                        and isinstance(st.value, (ast.Tuple, ast.List)) and len(st.targets[0].elts) == len(st.value.elts) >= 2
+                        and not any(isinstance(v, ast.Starred) for v in st.value.elts)
+                        and _independent_parallel(st.targets[0].elts, st.value.elts)):
+                    for t, v in zip(st.targets[0].elts, st.value.elts):
+                        out.append(ast.copy_location(ast.Assign(targets=[t], value=v), st))
+                    n += 1
+                else:
+                    out.append(st)
+            setattr(node, fld, out)
+    if n:
+        ast.fix_missing_locations(tree)
+    return n
 
 
 def strip_logging(tree: ast.Module) -> int:
@@ -906,6 +1259,11 @@ class _TableGet(ast.NodeTransformer):
             if isinstance(st, ast.Assign) and len(st.targets) == 1 and isinstance(st.targets[0], ast.Name) and isinstance(st.value, ast.Dict) \
                     and counts.get(st.targets[0].id) == 1 and None not in st.value.keys:
                 self.tables[st.targets[0].id] = st.value
+        self.seqs = {}
+        for st in tree.body:
+            if isinstance(st, ast.Assign) and len(st.targets) == 1 and isinstance(st.targets[0], ast.Name) and isinstance(st.value, (ast.Tuple, ast.List)) \
+                    and counts.get(st.targets[0].id) == 1:
+                self.seqs[st.targets[0].id] = st.value
 
     def visit_FunctionDef(self, node):
         # dict displays bound once to a local name that is only ever used as `name.get(..)` / `name[..]` (never mutated, never passed on)
@@ -929,9 +1287,50 @@ class _TableGet(ast.NodeTransformer):
         self.tables = saved
         return node
 
+    def _const_rows(self, it):
+        """Rows of a small constant sequence: a literal tuple / list of constants, or a module-level name bound once to one."""
+        if isinstance(it, ast.Name) and it.id in self.seqs:
+            it = self.seqs[it.id]
+        if isinstance(it, (ast.Tuple, ast.List)) and 0 < len(it.elts) <= self.MAX_ROWS and all(
+                isinstance(e, ast.Constant) or (isinstance(e, (ast.Tuple, ast.List)) and all(isinstance(y, ast.Constant) for y in e.elts)) for e in it.elts):
+            return it.elts
+        return None
+
     def visit_Call(self, node: ast.Call):
         self.generic_visit(node)
         f = node.func
+        if (isinstance(f, ast.Name) and f.id == "next" and 1 <= len(node.args) <= 2 and not node.keywords and isinstance(node.args[0], ast.GeneratorExp)
+                and len(node.args[0].generators) == 1 and not node.args[0].generators[0].is_async and len(node.args) == 2):
+            # next((E(x) for x in ROWS if T(x)), D)  ->  E(r1) if T(r1) else E(r2) if T(r2) else ... D     (first match of a literal table)
+            g = node.args[0]
+            gen = g.generators[0]
+            rows = self._const_rows(gen.iter)
+            tgt = gen.target
+            names = [tgt.id] if isinstance(tgt, ast.Name) else [e.id for e in tgt.elts if isinstance(e, ast.Name)] if isinstance(tgt, (ast.Tuple, ast.List)) else None
+            if rows is not None and names and (isinstance(tgt, ast.Name) or len(names) == len(tgt.elts)):
+                chain = node.args[1]
+                okr = True
+                for row in reversed(rows):
+                    if isinstance(tgt, ast.Name):
+                        vals = [row]
+                    elif isinstance(row, (ast.Tuple, ast.List)) and len(row.elts) == len(names):
+                        vals = row.elts
+                    else:
+                        okr = False
+                        break
+                    mp = dict(zip(names, vals))
+
+                    class Sub(ast.NodeTransformer):
+                        def visit_Name(self_, n):
+                            if isinstance(n.ctx, ast.Load) and n.id in mp:
+                                return ast.copy_location(copy.deepcopy(mp[n.id]), n)
+                            return n
+                    tests = [Sub().visit(copy.deepcopy(c)) for c in gen.ifs]
+                    test = tests[0] if len(tests) == 1 else (ast.BoolOp(op=ast.And(), values=tests) if tests else ast.Constant(value=True))
+                    chain = ast.IfExp(test=test, body=Sub().visit(copy.deepcopy(g.elt)), orelse=chain)
+                if okr:
+                    self.n += 1
+                    return ast.copy_location(chain, node)
         if isinstance(f, ast.IfExp) and not any(isinstance(x, (ast.Call, ast.NamedExpr, ast.Await, ast.Yield)) for a in list(node.args) + [k.value for k in node.keywords] for x in ast.walk(a)):
             # (f if c else g)(args)  ->  f(args) if c else g(args)      (call-free arguments: safe to repeat)
             def call_of(fn_expr):
